@@ -114,6 +114,32 @@ def h_seeded(ctx, name):
                   g1.bit_generator.state['state'] == g2.bit_generator.state['state'])
 
 
+def h_restart_generator(ctx):
+    """sample_square(unique=True) through its restart path (first batch with too
+    few distinct rows, draws scripted): the repeated attempt keeps drawing from
+    the generator it was given, no other source of randomness appears."""
+    from harness.c14 import _gen
+    Y, W = quasi_diag_tt(ctx, 2, 2)
+    script = [0, 0, 0, 0] + [0, 0, 0, 0] + [0, 1, 0, 1] + [1, 1, 1, 1, 1, 1, 1, 1] * 4
+    g = _gen(ctx, 'retry', script=script)
+    n0 = len(ctx.rng_audit) if is_sym(ctx) else 0
+    if is_sym(ctx):
+        from symtt.stubs_rng import GlobalRNG
+        try:
+            I = teneva.sample_square(Y, 2, unique=True, seed=g, m_fact=1, max_rep=3)
+        except GlobalRNG as e:
+            ctx.fail('independent_of_global_generator', str(e))
+            return
+        aud = ctx.rng_audit[n0:]
+        ctx.claim('independent_of_global_generator', not any(a[0] in ('global', 'unseeded_default_rng') for a in aud))
+        ctx.claim('generator_object_is_the_only_source', {a[1] for a in aud if a[0] == 'draw'} <= {'retry'})
+    else:
+        I = teneva.sample_square(Y, 2, unique=True, seed=g, m_fact=1, max_rep=3)
+    # first attempt: one batched draw for the first mode + 2 draws, second attempt: one + 4, all from the given generator
+    ctx.claim('restart_draws_from_the_given_generator', len([e for e in g.log if e[0] == 'choice']) == 8)
+    ctx.claim('shape', I.shape == (2, 2))
+
+
 def h_repeatable(ctx, name):
     """Functions without randomness: repeated calls give identical results."""
     Y = ctx.tt('y', [2, 2], 2)
@@ -125,9 +151,19 @@ def h_repeatable(ctx, name):
         'delta': lambda: teneva.delta([2, 3], [1, 2], 2.), 'poly': lambda: teneva.poly([2, 2], 1., 2),
         'grid_flat': lambda: teneva.grid_flat([2, 3]), 'interface': lambda: teneva.interface(Y, norm=None),
         'cache_to_data': lambda: teneva.cache_to_data({(0, 1): 2., (1, 1): 3.}),
+        'func_diff_matrix': lambda: teneva.func_diff_matrix(-1., 2., 3, 2),
+        'func_basis': lambda: teneva.func_basis(np.array([ctx.const(1) / 3, ctx.const(-1) / 2], dtype=Y[0].dtype), 3),
+        'grid_prep_opts': lambda: teneva.grid_prep_opts(-1., 2., 3, 2),
+        'matrix_delta': lambda: teneva.matrix_delta(2, 1, 2, 3.),
+        'ind_tt_to_qtt': lambda: teneva.ind_tt_to_qtt(np.array([1, 2]), 4),
     }
     f = calls[name]
-    a = _flat(f())
+    first = _flat(f())
+    a = [x.copy() for x in first]
+    # the caller edits what it got back (a hidden cache shared with callers would show in the next call)
+    for x in first:
+        if x.size and x.flags.writeable:
+            x[...] = x * 2 + 1
     _history(ctx)
     b = _flat(f())
     ctx.claim('repeated_call_identical', _identical(ctx, a, b))
@@ -231,12 +267,14 @@ def instances(tier):
     for name in ('rand', 'sample_lhs', 'rand_stab'):
         out.append({'func': 'h_symbolic_seed', 'params': {'name': name}})
     out.append({'func': 'h_anova_history', 'params': {}})
+    out.append({'func': 'h_restart_generator', 'params': {}, 'opts': {'symbolic_signs': False}})
     for case in ('cross_act_0', 'cross_act_1', 'cross_act_2', 'cross_act_3', 'core_qr_rand', 'sample_func'):
         out.append({'func': 'h_concrete_seeded', 'params': {'case': case}, 'opts': {'concrete_only': True}})
     for name in ['rand', 'rand_norm', 'rand_stab', 'sample', 'sample_lhs', 'sample_rand', 'sample_rand_poi',
                  'sample_tt', 'sample_square', 'sample_square_dup', 'anova']:
         out.append({'func': 'h_seeded', 'params': {'name': name}, 'opts': {'symbolic_signs': False}})
-    for name in ['add', 'mul', 'sub', 'full', 'get', 'sum', 'mul_scalar', 'const', 'delta', 'poly', 'grid_flat',
+    for name in ['func_diff_matrix', 'func_basis', 'grid_prep_opts', 'matrix_delta', 'ind_tt_to_qtt',
+                 'add', 'mul', 'sub', 'full', 'get', 'sum', 'mul_scalar', 'const', 'delta', 'poly', 'grid_flat',
                  'interface', 'cache_to_data']:
         out.append({'func': 'h_repeatable', 'params': {'name': name}})
     return out
